@@ -74,6 +74,7 @@ def main():
     env_errors = []
     any_mismatch = []
     all_digests = {}
+    foreign = {}
 
     def handle_stream(name, driver, cases, model_driver=None):
         nonlocal evaluations, n_cases, distinct, nontrivial, exit_code
@@ -98,7 +99,11 @@ def main():
             h, steps = res.traces[min(len(res.traces) - 1, 3)]
             samples.append(dict(stream=name, case=h, steps=["%s => %s" % s for s in steps[:12]]))
         # oracle failures: group by (clause, attributes)
+        own = getattr(mod, "OWN", None)
         for o in res.oracle:
+            if own is not None and str(o["clause"]) not in own:
+                foreign[str(o["clause"])] = foreign.get(str(o["clause"]), 0) + 1
+                continue
             case = cases[o["case"]]
             attrs = mod.attrs(o, case) if hasattr(mod, "attrs") else {}
             key = (o["clause"], json.dumps(attrs, sort_keys=True))
@@ -196,6 +201,7 @@ def main():
         rule=getattr(mod, "RULE", ""), samples=samples, op_histogram=hist, streams=stream_info,
         exhaustive=bool(getattr(mod, "EXHAUSTIVE", {}).get(tier, False)),
         correspondence_mismatches=len(any_mismatch), known_findings_hit=sorted(known_printed),
+        clauses_of_sibling_properties_hit=foreign,
     )
     coverage.update(extra_cov)
     if not samples:
